@@ -62,7 +62,7 @@ def expr(n):
                 and isinstance(n.key, ast.Name) and n.key.id == g.target.id
                 and isinstance(n.value, ast.Subscript) and isinstance(n.value.slice, ast.Name)
                 and n.value.slice.id == g.target.id and isinstance(n.value.value, ast.Attribute)
-                and n.value.value.attr == "parent" and isinstance(n.value.value.value, ast.Name)):
+                and n.value.value.attr == "_globals" and isinstance(n.value.value.value, ast.Name)):
             return f"(EPick (EVar {q(g.iter.id)}) (EVar {q(n.value.value.value.id)}))"
     if isinstance(n, ast.Call):
         f = n.func
